@@ -37,6 +37,8 @@ R6 (K1) _obsolete_packs / _clear_obsolete_packs only move/delete under obsolete_
    directories — they never delete from packs/ or indices/ (deletes are on the obsolete transport only).
 Added while testing against seeded changes: R7 GCCHKPacker._create_pack_from_packs detects an identical single-pack
 repack after finish_content() and aborts before finish() (which would rewrite the live pack's index files in place).
+R8 (fourth round) who-may-remove: in the three pack modules only _obsolete_packs moves, and only _clear_obsolete_packs deletes, files through a
+   pack or index transport.
 Does not decide: atomicity of the transport's put_file/rename, NewPack.finish itself (bzrformats), or behaviour at
 individual crash prefixes; it decides that operations are issued in the only order under which every prefix is safe.
 """
@@ -179,6 +181,19 @@ def run(ctx):
     bad = [norm(c)[:80] for c in dels if call_recv(c) not in obs_t]
     src_ok = len(obs_t) == 1
     ctx.check("R6-clear-only-obsolete-dir", f"{PR}:{COLL}._clear_obsolete_packs", dels and not bad and src_ok, "deletes happen only on the transport cloned at obsolete_packs/", construct="; ".join(bad), message="_clear_obsolete_packs deletes outside obsolete_packs/")
+    # ---- R8: who may take pack files away ----------------------------------------------------------------------------------
+    # Published pack and index files leave packs/ and indices/ only through _obsolete_packs (a move, after pack-names was
+    # rewritten) and obsolete_packs/ is emptied only by _clear_obsolete_packs.  Any other function that deletes or moves files
+    # through a pack / index transport can remove a pack that pack-names lists.
+    ALLOWED_REMOVERS = {f"{COLL}._obsolete_packs", f"{COLL}._clear_obsolete_packs"}
+    removers = {}
+    for rel_ in (PR, "breezy/bzr/groupcompress_repo.py", "breezy/bzr/knitpack_repo.py"):
+        for q_, f_ in repo.module(rel_).functions().items():
+            hits = [f"L{c.lineno}:{norm(c)[:60]}" for c in calls_in(f_) if call_attr(c) in ("delete", "delete_multi", "delete_tree", "rename", "move") and any(w in (call_recv(c) or "") for w in ("pack_transport", "_index_transport", "index_transport")) or (call_attr(c) in ("delete", "delete_multi", "delete_tree", "move") and (call_recv(c) or "") == "transport" and any(isinstance(a, ast.Assign) and norm(a.targets[0]) == "transport" or isinstance(a, ast.For) for a in ast.walk(f_)) and any("pack_transport" in norm(n_) for n_ in ast.walk(f_) if isinstance(n_, ast.Attribute)))]
+            if hits:
+                removers[f"{q_}"] = hits
+    extra = sorted(set(removers) - ALLOWED_REMOVERS)
+    ctx.check("R8-who-removes-pack-files", PR, ALLOWED_REMOVERS <= set(removers) and not extra, "pack and index files are moved away only by _obsolete_packs and deleted only (from obsolete_packs/) by _clear_obsolete_packs", construct="; ".join(f"{q_}: {removers[q_][0]}" for q_ in extra), message=f"{extra} delete or move pack / index files outside the obsolete-packs path: a cleanup that runs after pack-names may already have been rewritten (an exception from _save_pack_names does not mean nothing was published) removes a pack that is listed — reopening the repository fails with NoSuchFile")
 
 
 def _obsolete_arg_provenance(fn):
@@ -212,7 +227,6 @@ def _obsolete_arg_provenance(fn):
             if loops.get(src) != "pack_operations":
                 return False, f"{norm(n)} where {src} is not bound by a loop over pack_operations"
     return True, f"{name}: [] + extend(packs for packs in pack_operations)"
-
 
 MUTANTS = [
     Mutant("identical repack detected only after finish()", GC, "        self.new_pack.finish_content()\n        if len(self.packs) == 1:\n            old_pack = self.packs[0]\n            if old_pack.name == self.new_pack._hash.hexdigest():", "        self.new_pack.finish()\n        if len(self.packs) == 1:\n            old_pack = self.packs[0]\n            if old_pack.name == self.new_pack._hash.hexdigest():", expect=["R7-identical-repack-aborted", "R1-finish-before-allocate"]),
